@@ -1,7 +1,7 @@
 (* C08 — Encoding is deterministic, canonical, and always decodable.
    Statements only (copied from coq/theories by bin/mkprops); each proof is `exact <lemma>`. *)
 From Coq Require Import Ascii String ZArith List Bool Permutation.
-From GoCose Require Import Bytes Cbor CborProofs Res GoVal Obs Ecdsa EcdsaProofs Fx Headers Enc Dec Msg HashEnv Key SigVer Run TbsProofs FlowProofs DecProofs KeyProofs HdrProofs EncProofs EncCanon NoPanic Effects MoreProofs KeyCbor.
+From GoCose Require Import Bytes Cbor CborProofs Res GoVal Obs Ecdsa EcdsaProofs Fx Headers Enc Dec Msg HashEnv Key SigVer Run TbsProofs FlowProofs DecProofs KeyProofs HdrProofs EncProofs EncCanon NoPanic Effects MoreProofs KeyCbor EncDec.
 From GoCose.Gen Require Import Generated.
 Import ListNotations.
 Open Scope Z_scope.
@@ -79,3 +79,30 @@ Theorem C08_ser_inj :
   wf x = true -> wf y = true -> ser x ++ r = ser y ++ r' -> x = y /\ r = r'.
 Proof. exact ser_inj. Qed.
 Print Assumptions C08_ser_inj.
+
+(* always decodable: by induction over arbitrarily nested values (integers of int64, UTF-8 text, byte strings, booleans, nil, arrays, maps with integer / text keys) the encoder output is the serialisation of a canonical tree that the library decoder accepts, and it decodes to the same value (integer kinds come back as int64, a nil []byte as nil, map entries in some order) *)
+Theorem C08_enc_dec :
+  forall g, encdec g.
+Proof. exact enc_dec. Qed.
+Print Assumptions C08_enc_dec.
+
+Theorem C08_enc_dec_bytes :
+  forall g b,
+  simple g = true -> enc g = Acc b ->
+  exists w d, parse_full b = Some w /\ canonical w = true /\ dec true w = Acc d /\ rel g d.
+Proof. exact enc_dec_bytes. Qed.
+Print Assumptions C08_enc_dec_bytes.
+
+Theorem C08_enc_dec_example :
+  let g := GMap [GInt KInt 256; GStr [97]; GInt KInt8 (-1); GArr [GBytes []; GBool true; GNilBytes]; GStr []; GMap [GInt KUint8 1; GNil]] in
+  simple g = true /\
+  match enc g with
+  | Acc b => match parse_full b with
+             | Some w => dec true w = Acc (GMap [GInt KInt64 256; GStr [97]; GInt KInt64 (-1); GArr [GBytes []; GBool true; GNil];
+                                                 GStr []; GMap [GInt KInt64 1; GNil]])
+             | None => False
+             end
+  | _ => False
+  end.
+Proof. exact enc_dec_example. Qed.
+Print Assumptions C08_enc_dec_example.
